@@ -126,7 +126,7 @@ def _eval_method(cls, mname, argnames, selfattrs=None):
                 selfattrs[name] = {}
             elif isinstance(v, (ast.List, ast.Set)) and not v.elts:
                 selfattrs[name] = []
-    it = Interp(env, selfattrs, region, methods={k: v.node for k, v in cls.methods.items() if k in PROB_METHODS}, cls_name=cls.name, externals=_dist_ext())
+    it = Interp(env, selfattrs, region, methods={k: v.node for k, v in cls.methods.items()}, cls_name=cls.name, externals=_dist_ext())  # helpers of the class are walked too
     return it.run(A.strip_docstring(m.node.body))
 
 
@@ -326,12 +326,25 @@ def run(ctx):
     pub = {b: {k: v for k, v in c.methods.items() if not k.startswith("_")} for b, c in classes.items()}
     allnames = set().union(*[set(p) for p in pub.values()])
     ctx.extra["public_methods"] = len(allnames)
+    # the interface the package itself programs against: methods called on a backend handle anywhere outside the backends
+    used = set()
+    for m_ in repo.modules.values():
+        if m_.relpath.startswith(T) and m_.relpath.endswith("_backend.py"):
+            continue
+        for n_ in ast.walk(m_.tree):
+            if isinstance(n_, ast.Call) and isinstance(n_.func, ast.Attribute):
+                root = A.dotted(n_.func.value) or ""
+                if root.split(".")[-1] in ("tensorlib", "tb", "default_backend", "backend"):
+                    used.add(n_.func.attr)
     for name in sorted(allnames):
         have = [b for b in pub if name in pub[b]]
         if len(have) != len(pub):
             missing = sorted(set(pub) - set(have))
             owner = pub[have[0]][name]
-            ctx.violated(r5, owner, f"def {name}", f"method `{name}` exists on {have} but not on {missing}: code written against one backend breaks on another", expected="all four backends")
+            if name in used or name in PROB_METHODS:
+                ctx.violated(r5, owner, f"def {name}", f"method `{name}` exists on {have} but not on {missing}, and the package calls it on whatever backend is current: code that works on one backend breaks on another", expected="all four backends")
+            else:
+                ctx.note(f"C04.R5: `{name}` exists only on {have}; nothing in the package calls it through a backend handle (a private helper of that backend)")
             continue
         sigs = {}
         for b in pub:
